@@ -125,7 +125,7 @@ Theorem gen_params_wf fx mfx sha1 c o issuer t :
   gen_tcert fx mfx sha1 c o issuer = Some t -> alg_wf (sp_alg (ob_spki o)) -> params_wf t.
 Proof.
   intros H Wk. unfold gen_tcert in H.
-  destruct (cc_serial c <? 0)%Z; [discriminate|].
+  destruct ((cc_serial c <? 0)%Z || (9223372036854775807 <? cc_serial c)%Z); [discriminate|].
   destruct (parse_rdn (cc_subject c)) as [subj|]; [|discriminate].
   destruct (to_time_struct _ _ _) as [val|]; [|discriminate].
   destruct (sig_oid _) as [[so rsa]|]; [|discriminate].
@@ -151,7 +151,7 @@ Lemma gen_times fx mfx sha1 c o issuer t : gen_tcert fx mfx sha1 c o issuer = So
   exists w1 w2, t_nb t = civil_of_wall (to_utc w1 (ob_off_from o)) /\ t_na t = civil_of_wall (to_utc w2 (ob_off_until o)).
 Proof.
   intros H. unfold gen_tcert in H.
-  destruct (cc_serial c <? 0)%Z; [discriminate|].
+  destruct ((cc_serial c <? 0)%Z || (9223372036854775807 <? cc_serial c)%Z); [discriminate|].
   destruct (parse_rdn (cc_subject c)) as [subj|]; [|discriminate].
   destruct (to_time_struct _ _ _) as [val|]; [|discriminate].
   destruct (sig_oid _) as [[so rsa]|]; [|discriminate].
